@@ -152,6 +152,18 @@ def run(pid, tier, seed, idx, info, t0, files, notes, cover, hdr, per_fn, rule, 
             nf0 = len(failures); still = long_pass(D, 'Slow'); core.DEFERRED.extend(still)
             stillid = set(id(l) for l, _ in still); failed = set(id(l) for l, _ in failures[nf0:])
             for l in D: slow_out[lid(l)] = {'h': h(l), 'st': 'deferred' if id(l) in stillid else 'failed' if id(l) in failed else 'proved'}
+    # lemmas that stay undecided (recorded as never decided, or skipped as such): no proof - but where the lemma carries a reference formula, the
+    # crate is at least compared with it numerically (differential fallback; a disagreement is reported with the failing input)
+    spot = 0; spot_bad = 0
+    for l in [x for x, _ in core.DEFERRED] + [x for x, st in skipped if st != 'proved']:
+        if not hasattr(l, 'search') or getattr(l, 'raw_stmt', False): continue
+        try: cx, _ = l.search(idx, seed)
+        except Exception: continue
+        spot += 1
+        if cx:
+            spot_bad += 1; l.spot_cx = cx
+            failures.append((l, 'Error: the lemma is not decided by the proof search, and the crate disagrees with its reference formula on a concrete input'))
+    notes['undecided_lemmas_spot_checked_numerically'] = {'checked': spot, 'disagree': spot_bad}
     npc = sum(1 for _, st in skipped if st == 'proved')
     notes['deferred_count'] = len(core.DEFERRED) + len(skipped) - npc; notes['deferred'] = ['%s (%s)' % (l.meta['key'], why) for l, why in core.DEFERRED][:60]
     notes['slow_lemmas_unchanged_since_baseline'] = {'proved_with_long_limit_when_recorded': npc, 'not_decided_when_recorded': len(skipped) - npc}
